@@ -158,7 +158,7 @@ def build(ctx):
         warnings.simplefilter("ignore")
         mod = __import__("bluebonnet.flow.flowproperties", fromlist=["x"])
         for name, tb in c09.real_tables():
-            if "compressibility" not in tb:
+            if "compressibility" not in tb or "alpha" in tb:   # the statement is about tables WITHOUT a user-supplied diffusivity (C09 has the other branch)
                 continue
             P = np.asarray(tb["pressure"], dtype=float)
             p_i = float(0.5 * (P[3] + P[4]))
